@@ -16,7 +16,33 @@ DATA_FCS = sorted(TABLE_OF_FC)
 READ_LIMIT = {1: 2000, 2: 2000, 3: 125, 4: 125}
 
 
+class DefaultCells(object):
+    """Model of the library's default block (address 0, 65536 cells of 0) that only stores what was written."""
+
+    def __init__(self):
+        self.w = {}
+
+    def __contains__(self, k):
+        return 0 <= k < 65536
+
+    def __getitem__(self, k):
+        if not 0 <= k < 65536:
+            raise KeyError(k)
+        return self.w.get(k, 0)
+
+    def __setitem__(self, k, v):
+        self.w[k] = v
+
+    def items(self):
+        return self.w.items()
+
+    def __iter__(self):
+        return iter(range(65536))
+
+
 def block_cells(b):
+    if b['shape'] == 'default':
+        return DefaultCells()
     if b['shape'] == 'seq':
         return dict(zip(range(b['start'], b['start'] + len(b['values'])), b['values']))
     return dict(zip(b['keys'], b['values']))
@@ -34,6 +60,13 @@ def make_slave(layout, slave_class=None):
     cls = slave_class or ModbusSlaveContext
     t = layout['tables']
     share = layout.get('share')
+    if any(t[k]['shape'] == 'default' for k in 'cdhi'):
+        # tables left to the library default are simply not passed
+        kw = {}
+        for k, name in (('c', 'co'), ('d', 'di'), ('h', 'hr'), ('i', 'ir')):
+            if t[k]['shape'] != 'default':
+                kw[name] = make_block(t[k])
+        return cls(zero_mode=layout['zero_mode'], **kw)
     co = make_block(t['c'])
     di = co if share in ('bits', 'both') else make_block(t['d'])
     hr = make_block(t['h'])
@@ -45,6 +78,8 @@ class SlaveModel(object):
     def __init__(self, layout):
         t = layout['tables']
         share = layout.get('share')
+        if any(t[k]['shape'] == 'default' for k in 'cdhi'):
+            share = None
         self.off = 0 if layout['zero_mode'] else 1
         self.tab = {}
         self.tab['c'] = block_cells(t['c'])
@@ -187,11 +222,27 @@ def abstract_request(pdu):
     return {'fc': fc, 'wellformed': True}
 
 
-def dump_slave(slave):
-    """Full dump of the four real tables: {'c': {addr: value}, ...}"""
+def dump_slave(slave, window=None):
+    """Full dump of the four real tables: {'c': {addr: value}, ...}; with `window` (a set of block
+    addresses) only those cells are read - used for the 65536-cell default blocks."""
     out = {}
     for k in 'cdhi':
-        out[k] = dict((int(a), v) for a, v in slave.store[k])
+        blk = slave.store[k]
+        if window is not None and not isinstance(blk.values, dict) and len(blk.values) > 5000:
+            out[k] = dict((a, blk.values[a - blk.address]) for a in window if 0 <= a - blk.address < len(blk.values))
+        else:
+            out[k] = dict((int(a), v) for a, v in blk)
+    return out
+
+
+def dump_model(ref, window=None):
+    out = {}
+    for k in 'cdhi':
+        cells = ref.tab[k]
+        if isinstance(cells, DefaultCells):
+            out[k] = dict((a, cells[a]) for a in (window or ()) if a in cells)
+        else:
+            out[k] = dict(cells)
     return out
 
 
